@@ -1,5 +1,5 @@
 use super::swift_utils::{
-    format_swift_amount_for_currency, parse_amount_with_currency, parse_currency,
+    ensure_ascii, format_swift_amount_for_currency, parse_amount_with_currency, parse_currency,
 };
 use crate::errors::ParseError;
 use crate::traits::SwiftField;
@@ -35,6 +35,7 @@ impl SwiftField for Field34F {
     where
         Self: Sized,
     {
+        ensure_ascii(input, "Field 34")?;
         // Field34F format: 3!a[1!a]15d (currency + optional indicator + amount)
         if input.len() < 4 {
             // Minimum: 3 chars currency + 1 digit amount
